@@ -6,7 +6,7 @@ from typing import List
 
 from vf.cond import cond
 
-from .common import DictLoader, Environment, LiquidError, concrete_int, drive
+from .common import DictLoader, Environment as _Environment, LiquidError, concrete_int, drive, untraced
 
 from liquid2 import CachingDictLoader  # noqa: E402
 from liquid2.builtin.loaders.mixins import CachingLoaderMixin  # noqa: E402
@@ -14,15 +14,22 @@ from liquid2.exceptions import TemplateNotFoundError  # noqa: E402
 from liquid2.loader import TemplateSource  # noqa: E402
 from liquid2.utils import LRUCache  # noqa: E402
 
+class Environment(_Environment):
+    """Parsing has no symbolic input here (sources are concrete per path): run it outside the tracer."""
+
+    def parse(self, source):  # type: ignore[no-untyped-def]
+        return untraced(lambda: _Environment.parse(self, source))
+
+
 EXPLANATION = (
     "Histories of loader operations are vectors of solver-chosen operation codes executed on the real caching "
     "loader and, step by step, on a 20-line reference (non-caching loader + explicit LRU list); the solver "
     "certifies that no history in the bound distinguishes them."
 )
 OUTSIDE = [
-    "histories longer than 2 (thorough 3) steps; more than 2 names x 2 namespaces",
-    "CachingFileSystemLoader's mtime plumbing (real file system); thread-safe cache variant under real threads",
-    "CachingChoiceLoader is exercised through the same mixin with a single delegate only",
+    "histories longer than 3 (thorough 4) steps; more than 2 names x 2 namespaces; capacity 3 only in the thorough tier and in k_lru",
+    "thread-safe cache variant under real threads; the executor hop of get_source_async (runs inline); file systems whose mtime granularity hides an edit (the harness sets mtime := version)",
+    "CachingChoiceLoader with more than two delegates",
 ]
 
 
@@ -127,11 +134,78 @@ def _initial() -> dict:
 N_OPS = 20
 
 
-def _run_history(ops: list[int], cap: int, auto_reload: bool, fresh: bool) -> bool:
+# ---- real file system backend (CachingFileSystemLoader / CachingChoiceLoader over FileSystemLoader) ----
+import atexit  # noqa: E402
+import os  # noqa: E402
+import shutil  # noqa: E402
+import tempfile  # noqa: E402
+
+from liquid2 import CachingChoiceLoader, CachingFileSystemLoader, FileSystemLoader  # noqa: E402
+
+_FS_ROOT = tempfile.mkdtemp(prefix="vf_c14_")
+os.mkdir(os.path.join(_FS_ROOT, "n"))
+atexit.register(shutil.rmtree, _FS_ROOT, True)
+_MTIME0 = 1_600_000_000
+
+
+class _NsFileSystemLoader(CachingFileSystemLoader):
+    """The documented multi-user arrangement: templates of namespace `ns` live in the folder `ns/`."""
+
+    def get_source(self, env, template_name, *, context=None, **kwargs):  # type: ignore[no-untyped-def]
+        ns = kwargs.get("ns")
+        return super().get_source(env, f"{ns}/{template_name}" if ns else template_name, context=context, **kwargs)
+
+    async def get_source_async(self, env, template_name, *, context=None, **kwargs):  # type: ignore[no-untyped-def]
+        ns = kwargs.get("ns")
+        return await super().get_source_async(env, f"{ns}/{template_name}" if ns else template_name, context=context, **kwargs)
+
+
+class _NsPlain(FileSystemLoader):
+    def get_source(self, env, template_name, *, context=None, **kwargs):  # type: ignore[no-untyped-def]
+        ns = kwargs.get("ns")
+        return super().get_source(env, f"{ns}/{template_name}" if ns else template_name, context=context, **kwargs)
+
+    async def get_source_async(self, env, template_name, *, context=None, **kwargs):  # type: ignore[no-untyped-def]
+        ns = kwargs.get("ns")
+        return await super().get_source_async(env, f"{ns}/{template_name}" if ns else template_name, context=context, **kwargs)
+
+
+def _fs_loader(backend: str, cap: int, auto_reload: bool):  # type: ignore[no-untyped-def]
+    if backend == "fs":
+        return _NsFileSystemLoader(_FS_ROOT, auto_reload=auto_reload, namespace_key="ns", capacity=cap)
+    return CachingChoiceLoader([DictLoader({"zz": "unused"}), _NsPlain(_FS_ROOT)], auto_reload=auto_reload, namespace_key="ns", capacity=cap)
+
+
+def _fs_write(full: str, source: str, version: int) -> None:
+    def go() -> None:
+        path = os.path.join(_FS_ROOT, full)
+        with open(path, "w", encoding="utf-8") as fd:
+            fd.write(source)
+        os.utime(path, (_MTIME0 + version, _MTIME0 + version))  # the modification time is the version: no clock involved
+
+    untraced(go)
+
+
+def _fs_delete(full: str) -> None:
+    try:
+        os.unlink(os.path.join(_FS_ROOT, full))
+    except FileNotFoundError:
+        pass
+
+
+def _run_history(ops: list[int], cap: int, auto_reload: bool, fresh: bool, backend: str = "mem") -> bool:
     sources = _initial()
     versions = {k: 0 for k in sources}
-    loader = _CachingVersioned(sources, auto_reload=auto_reload, capacity=cap, fresh=fresh)
-    env = Environment(loader=loader)
+    def build():  # object construction has no symbolic input
+        if backend == "mem":
+            ld = _CachingVersioned(sources, auto_reload=auto_reload, capacity=cap, fresh=fresh)
+        else:
+            ld = _fs_loader(backend, cap, auto_reload)
+            for k in list(sources):
+                _fs_write(k, sources[k], 0)
+        return ld, Environment(loader=ld)
+
+    loader, env = untraced(build)
     lru: list = []  # [(cache_key, source at load)] least recently used first
     for op in ops:
         if op >= 16:
@@ -141,8 +215,12 @@ def _run_history(ops: list[int], cap: int, auto_reload: bool, fresh: bool) -> bo
                 if op < 18:
                     versions[full] += 1
                     sources[full] = _src(name, ns, versions[full])
+                    if backend != "mem":
+                        _fs_write(full, sources[full], versions[full])
                 else:
                     sources.pop(full, None)
+                    if backend != "mem":
+                        _fs_delete(full)
             continue
         is_async, name, ns, with_g = bool(op & 1), NAMES[(op >> 1) & 1], NSS[(op >> 2) & 1], bool(op & 8)
         full = f"{ns}/{name}" if ns else name
@@ -199,19 +277,61 @@ def _run_history(ops: list[int], cap: int, auto_reload: bool, fresh: bool) -> bo
     grid=lambda: [(8, 0, 2, True, True), (5, 2, 2, True, False), (0, 2, 1, False, False), (16, 0, 1, True, True), (18, 0, 2, True, True)],
 )
 def s_hist2(o1: int, o2: int, cap: int, auto_reload: bool, fresh: bool) -> bool:
-    return _run_history([concrete_int(o1, 0, N_OPS - 1), concrete_int(o2, 0, 15)], cap, auto_reload, fresh)
+    ops = [concrete_int(o1, 0, N_OPS - 1), concrete_int(o2, 0, 15)]
+    return untraced(lambda: _run_history(ops, cap, auto_reload, fresh))  # every input is concrete from here on
+
+
+@cond(
+    pre=["0 <= o1 < N_OPS", "0 <= o2 < N_OPS", "0 <= o3 < 16"],
+    timeout=600,
+    shard={"cap": [1, 2], "auto_reload": [False, True], "fresh": [False, True]},
+    covers="every history of 3 operations (LRU victim observable), as s_hist2",
+    bounds="20 x 20 x 16 histories x capacity 1..2 x auto_reload x freshness",
+)
+def s_hist3(o1: int, o2: int, o3: int, cap: int, auto_reload: bool, fresh: bool) -> bool:
+    ops = [concrete_int(o1, 0, N_OPS - 1), concrete_int(o2, 0, N_OPS - 1), concrete_int(o3, 0, 15)]
+    return untraced(lambda: _run_history(ops, cap, auto_reload, fresh))
+
+
+@cond(
+    pre=["0 <= o2 < N_OPS", "0 <= o3 < N_OPS", "0 <= o4 < 16"],
+    timeout=1800,
+    tiers=("thorough",),
+    shard={"o1": list(range(N_OPS)), "cap": [1, 2, 3], "auto_reload": [False, True], "fresh": [False, True]},
+    covers="every history of 4 operations with capacity up to 3, as s_hist2",
+    bounds="20^3 x 16 histories x capacity 1..3 x auto_reload x freshness",
+)
+def s_hist4(o1: int, o2: int, o3: int, o4: int, cap: int, auto_reload: bool, fresh: bool) -> bool:
+    ops = [o1, concrete_int(o2, 0, N_OPS - 1), concrete_int(o3, 0, N_OPS - 1), concrete_int(o4, 0, 15)]
+    return untraced(lambda: _run_history(ops, cap, auto_reload, fresh))
+
+
+@cond(
+    pre=["0 <= o1 < 16", "16 <= e < N_OPS", "0 <= o3 < 16"],
+    timeout=400,
+    shard={"backend": ["fs", "choice"], "cap": [1, 2], "auto_reload": [False, True]},
+    covers="the stock CachingFileSystemLoader and CachingChoiceLoader (over a FileSystemLoader) on a real directory: load, edit (modify or delete either file), load - every combination of sync/async, name, namespace folder and globals for the two loads - agrees step by step with the reference; sync and async freshness checks (uptodate / uptodate coroutine) are interchangeable on one cache entry; a deleted file is a TemplateNotFoundError exactly when the uncached loader raises it",
+    bounds="16 x 4 x 16 histories x capacity 1..2 x auto_reload x 2 loader classes; 2 names x 2 namespace folders; modification time := version counter (os.utime), no wall clock; thread-pool hop of get_source_async runs inline",
+    stubs=("asyncio.get_running_loop := inline stub loop (see common.STUB_LOOP)",),
+    grid=lambda: [(a, e, c, b, 2, True) for a in (0, 1, 5) for e in (16, 18) for c in (0, 1, 4) for b in ("fs", "choice")] + [(1, 16, 1, "fs", 1, True), (0, 18, 1, "fs", 2, False), (5, 17, 2, "choice", 1, False)],
+)
+def s_fs_edit(o1: int, e: int, o3: int, backend: str, cap: int, auto_reload: bool) -> bool:
+    ops = [concrete_int(o1, 0, 15), concrete_int(e, 16, N_OPS - 1), concrete_int(o3, 0, 15)]
+    return untraced(lambda: _run_history(ops, cap, auto_reload, True, backend))
 
 
 @cond(
     pre=["0 <= o2 < N_OPS", "0 <= o3 < 16"],
     timeout=900,
     tiers=("thorough",),
-    shard={"o1": list(range(N_OPS)), "cap": [1, 2], "auto_reload": [False, True], "fresh": [False, True]},
-    covers="every history of 3 operations (LRU victim observable), as s_hist2",
-    bounds="20 x 20 x 16 histories x capacity 1..2 x auto_reload x freshness",
+    shard={"o1": list(range(N_OPS)), "backend": ["fs", "choice"], "cap": [1, 2], "auto_reload": [False, True]},
+    covers="as s_fs_edit for every history of 3 operations (LRU victim and eviction-then-reload observable on the real file-system loaders)",
+    bounds="20 x 20 x 16 histories x capacity 1..2 x auto_reload x {CachingFileSystemLoader, CachingChoiceLoader}",
+    stubs=("asyncio.get_running_loop := inline stub loop (see common.STUB_LOOP)",),
 )
-def s_hist3(o1: int, o2: int, o3: int, cap: int, auto_reload: bool, fresh: bool) -> bool:
-    return _run_history([o1, concrete_int(o2, 0, N_OPS - 1), concrete_int(o3, 0, 15)], cap, auto_reload, fresh)
+def s_fs_hist3(o1: int, o2: int, o3: int, backend: str, cap: int, auto_reload: bool) -> bool:
+    ops = [o1, concrete_int(o2, 0, N_OPS - 1), concrete_int(o3, 0, 15)]
+    return untraced(lambda: _run_history(ops, cap, auto_reload, True, backend))
 
 
 @cond(pre=["0 <= o1 < N_OPS"], twin=True, timeout=60, covers="reachability twin: a cached entry is served after its source changed (auto_reload off)")
